@@ -2,7 +2,7 @@
 pointer / bounds / overflow / division checks and the unwinding assertions (termination within the derived bound) on the
 real parser stages, each started from the state the previous stage establishes, with exact-size heap objects."""
 from specs import ERR
-import C13 as _c13, C07 as _c07, C06 as _c06, C10 as _c10
+import C13 as _c13, C07 as _c07, C06 as _c06, C10 as _c10, C15 as _c15, C14 as _c14, C09 as _c09
 def _take(spec, hname, **upd):
     h = dict([x for x in spec.SPEC["harnesses"] if x["name"] == hname][0])
     fn = h["function"]
@@ -18,7 +18,7 @@ _h03h = dict(_h06, name="h03h", function="h03h", models=["log_err.c", "files.c",
 SPEC = {
     "explanation": __doc__,
     "outside": ["inputs larger than the stage bounds (lead+header <= 89+60 bytes, <= 2 index entries, <= 2 optional elements)",
-                "the body readers (zck_read / chunk access / validation) on hostile bodies: C02, C09, C14, C15 harnesses carry the same generated checks",
+                "the body readers are covered through the concrete-shape instances of C02/C14/C15 and the scan harnesses of C09 (same generated checks), not for arbitrary shapes",
                 "command-line tools' main() (argp, printf) - not encoded", "allocation failure"],
     "assumptions": ["stage pre-states as in C13/C06/C07 (each proved as the post-condition of the previous stage)",
                     "compint.c replaced by env/compint_spec.c in the stage harnesses, h20e proves equivalence"],
@@ -32,5 +32,8 @@ SPEC = {
         _take(_c13, "h13s", name="h03s", what="read_sig on an arbitrary header"),
         _take(_c13, "h13g", name="h03g", what="every getter / iterator on an arbitrary opened context (index never empty after the count check)"),
         _take(_c10, "h10c", name="h03r", what="zck_get_range_char incl. the empty request (was: write before the buffer)"),
-    ],
+        _take(_c09, "h09a", name="h03v", what="validity scan on an arbitrary body of arbitrary length (memory safety, termination)"),
+        _take(_c09, "h09b", name="h03w", what="data-digest validation on an arbitrary body of arbitrary length"),
+    ] + [dict(h, name="h03" + h["name"][3:]) for h in _c15.SPEC["harnesses"] if h["name"].startswith("h15q")]
+      + [dict(h, name="h03" + h["name"][3:]) for h in _c14.SPEC["harnesses"]],
 }
